@@ -107,7 +107,11 @@ def run(tier, rng, C):
     n = 700 if tier == 'quick' else 30000
     # histories on one instance
     for i in range(n):
-        ops = ['new %s %s %s %s' % (opt(rng.choice(INVS)), opt(rng.choice([None, 'nodes', 'n'])), opt(rng.choice([None, 'classes', 'c/d'])),
+        inv0 = rng.choice(INVS + [None, None])
+        # (without an inventory path both directories must be given: the constructor fails otherwise and there
+        # is no instance to go on with)
+        ops = ['new %s %s %s %s' % (opt(inv0), opt(rng.choice(([None] if inv0 is not None else []) + ['nodes', 'n'])),
+                                    opt(rng.choice(([None] if inv0 is not None else []) + ['classes', 'c/d'])),
                                     optb(rng.choice([None, True, False])))]
         desc = [ops[0]]
         for _ in range(rng.randint(1, 8)):
